@@ -92,9 +92,13 @@ Families ==
                    x \in ColsOfInterest(g[1]) } : g \in Geoms }
     [] Model \in {"C06", "C07", "C13"} ->
          UNION { { [c |-> g[1], l |-> g[2],
-                   h |-> (IF sparse THEN FillSparse(g[1], g[2]) ELSE Fill(g[1], g[2])) \o <<Ev("sgr", <<44, 1>>)>>
+                   h |-> (IF sparse THEN FillSparse(g[1], g[2]) ELSE Fill(g[1], g[2])) \o rend
                          \o SetRegion(m) \o SetOrigin(d) \o PlaceWrap(g[1], m, d, y, x, 122)] :
                    m \in Regions(g[2]), d \in BOOLEAN, sparse \in BOOLEAN,
+                   \* the current rendition and reverse-video mode decide what erased / inserted blanks look like
+                   rend \in (IF Model = "C06" THEN { <<Ev("sgr", <<44, 1>>)>>, <<EvM("sm", <<5>>, TRUE), Ev("sgr", <<27>>)>> }
+                             ELSE { <<Ev("sgr", <<44, 1>>)>>, <<>>, <<EvM("sm", <<5>>, TRUE)>>, <<EvM("sm", <<5>>, TRUE), Ev("sgr", <<27>>)>>,
+                                    <<Ev("sgr", <<7, 4>>)>> }),
                    y \in 0..(g[2] - 1), x \in {0, g[1] \div 2, g[1] - 1, g[1]} } : g \in Geoms }
     [] Model = "C08" ->
          { [c |-> 2, l |-> 1, h |-> hh] :
